@@ -48,6 +48,13 @@ pub struct Scenario {
     /// "sweep" (enumerated length, fault-free), "free" (seeded, fault-free), "cap", "enum"
     /// (single fault at an enumerated position), "pair", "open", "fsize"
     pub config: String,
+    /// the output path below the scratch root (a raw byte is written as U+F800+byte, see
+    /// common::os): names without an extension, with several dots, with blanks, not UTF-8
+    #[serde(default = "out_default")]
+    pub out_rel: String,
+}
+fn out_default() -> String {
+    OUT_REL.to_string()
 }
 
 #[derive(Serialize, Deserialize, Clone, Debug)]
@@ -282,6 +289,7 @@ pub fn scenario_shape(tier: &str, base_seed: u64, g: u64) -> Scenario {
             prior_failed_call: None,
             duo: None,
             config: "sweep".into(),
+            out_rel: OUT_REL.to_string(),
         };
     }
     let writer = if r.chance(1, 2) { "code" } else { "eeprom" };
@@ -344,6 +352,20 @@ pub fn scenario_shape(tier: &str, base_seed: u64, g: u64) -> Scenario {
         },
         prior_failed_call: if matches!(config, "free" | "cap") && r.chance(1, 2) { Some(["is-directory", "missing-dir", "write-enospc"][r.usize(3)].to_string()) } else { None },
         config: config.into(),
+        out_rel: if config != "duo" && config != "sweep" && r.chance(1, 4) {
+            let raw = raw_byte_char([0xE4u8, 0xFF, 0x80, 0xC3][r.usize(4)]);
+            [
+                "out/image".to_string(),
+                "out/fw v1.2.hex".to_string(),
+                "out/.hex".to_string(),
+                format!("out/Ger{}t.hex", raw),
+                format!("out/d{}r/image.eep.hex", raw),
+                format!("out/{}", raw),
+            ][r.usize(6)]
+            .clone()
+        } else {
+            OUT_REL.to_string()
+        },
     }
 }
 
@@ -362,7 +384,10 @@ pub const OUT_REL: &str = "out/image.hex";
 pub fn execute(sc: &Scenario, scratch: &Scratch, budget: u64) -> Result<RunOut, String> {
     scratch.clear();
     std::fs::create_dir_all(scratch.path("out")).map_err(|e| e.to_string())?;
-    let out_path: PathBuf = scratch.path(OUT_REL);
+    let out_path: PathBuf = scratch.path("").join(pb(&sc.out_rel));
+    if let Some(d) = out_path.parent() {
+        std::fs::create_dir_all(d).map_err(|e| e.to_string())?;
+    }
     if sc.pre_existing > 0 {
         // not HEX: a writer that does not truncate leaves an undecodable tail
         let mut junk = Vec::with_capacity(sc.pre_existing);
@@ -650,7 +675,7 @@ fn place_faults(sc: &mut Scenario, prof: &RunOut, r: &mut Rng) {
                 _ => r.below(nwrites as u64) as i64,
             };
             let a = FAULT_ACTIONS[r.usize(FAULT_ACTIONS.len())];
-            sc.rules = fault_rules(a, OUT_REL, pos);
+            sc.rules = fault_rules(a, &lossy(&sc.out_rel), pos);
         }
         "pair" => {
             if nwrites == 0 {
@@ -659,12 +684,12 @@ fn place_faults(sc: &mut Scenario, prof: &RunOut, r: &mut Rng) {
             for _ in 0..2 {
                 let pos = r.below(nwrites as u64 + 2) as i64;
                 let a = FAULT_ACTIONS[r.usize(FAULT_ACTIONS.len())];
-                sc.rules.extend(fault_rules(a, OUT_REL, pos));
+                sc.rules.extend(fault_rules(a, &lossy(&sc.out_rel), pos));
             }
         }
         "open" => {
             let e = OPEN_ERRNOS[r.usize(OPEN_ERRNOS.len())];
-            sc.rules = vec![RuleSpec::errno("open", OUT_REL, 0, e, "open-fail")];
+            sc.rules = vec![RuleSpec::errno("open", &lossy(&sc.out_rel), 0, e, "open-fail")];
         }
         "fsize" => {
             if file_len > 0 {
@@ -791,6 +816,9 @@ pub fn worker(cfg: &WorkerCfg, emit: &mut dyn FnMut(Violation)) -> Stats {
         stats.probe("pre_existing_longer_file", sc.pre_existing > 0 && sc.pre_kind.is_empty());
         stats.probe("output_path_is_a_directory", sc.pre_kind == "dir");
         stats.probe("output_path_is_a_symbolic_link", sc.pre_kind == "symlink" || sc.pre_kind == "dangling");
+        stats.probe("output_name_that_is_not_utf8", has_raw(&sc.out_rel));
+        stats.probe("fault_fired_on_an_output_whose_name_is_not_utf8", has_raw(&sc.out_rel) && any_fired);
+        stats.probe("output_name_without_extension_or_with_inner_dots", sc.out_rel != OUT_REL && !has_raw(&sc.out_rel));
         stats.probe("largest_flash_image", sc.len == MAX_FLASH);
         stats.probe("call_after_a_failed_call_on_the_same_thread", sc.prior_failed_call.is_some());
         stats.probe("two_caller_threads_inside_the_writers_with_a_switch", sc.duo.is_some() && out.switches > 0);
